@@ -950,7 +950,7 @@ class Evaluator:
             raise NotEval(name)
         if name in ("torch.tensor", "torch.as_tensor", "torch.Tensor", "torch.stack", "torch.hstack", "np.array", "torch.cat"):
             a = A()
-            if a and isinstance(a[0], (list, tuple)):
+            if a and isinstance(a[0], (list, tuple)) and not any(isinstance(x, Model) for x in a[0]):  # joins of rule-supplied value models are the rule's business (on_call)
                 flat = []
                 for x in a[0]:
                     if isinstance(x, Vec1) and name in ("torch.cat", "torch.hstack"):
@@ -962,7 +962,8 @@ class Evaluator:
                     else:
                         raise NotEval("tensor of non-scalars")
                 return Vec1(flat)
-            raise NotEval("tensor constructor")
+            if not (self.on_call is not None and a and isinstance(a[0], (list, tuple)) and any(isinstance(x, Model) for x in a[0])):
+                raise NotEval("tensor constructor")
         if name in ("torch.zeros", "torch.ones", "torch.empty"):
             a = A()
             n = a[0] if a else None
